@@ -157,11 +157,20 @@ impl HardwareBreakpoint {
             .dr7
             .configure_bp(free_register, self.condition, self.size);
         state.dr7.set_dr(free_register, false, true);
+        // a refusal by the kernel (e.g. an address not aligned to the watch size) must not
+        // leave a watchpoint that is listed as active but armed nowhere
+        let mut refused = None;
         tracee_ctl.tracee_iter().for_each(|t| {
             if let Err(e) = state.sync(t.pid) {
-                error!("set hardware breakpoint for thread {}: {e}", t.pid)
+                error!("set hardware breakpoint for thread {}: {e}", t.pid);
+                if t.pid == tracee_ctl.proc_pid() {
+                    refused = Some(e);
+                }
             }
         });
+        if let Some(e) = refused {
+            return Err(e);
+        }
         self.register = Some(free_register);
 
         Ok(state)
